@@ -80,6 +80,13 @@ Record csys := {
   c_overlap : nat;                  (* ghost: writer stores into a line of an unread message *)
   c_rd : rthread;
   c_wr : nat -> wthread;
+  (* ghost, read-before-overwrite coverage (the reader -> writer direction of the hand-over): *)
+  c_repoch : nat;                   (* number of plain read segments of the reader so far *)
+  c_rver : Z -> nat;                (* epoch of the reader's latest plain read of a line (0 = never) *)
+  c_rstamp : nat;                   (* reads published on read_cursor (by its latest store) *)
+  c_lrstamp : nat;                  (* reads known to the previous lock holder, published on the write lock *)
+  c_wrseen : nat -> nat;            (* per writer: reads it knows to be complete (joined at its loads of read_cursor / the lock) *)
+  c_rrace : nat;                    (* writer stores into a line whose latest read is not known to it to be complete *)
 }.
 
 Definition fupd {A} (f : Z -> A) (l : Z) (v : A) : Z -> A := fun x => if x =? l then v else f x.
@@ -94,7 +101,8 @@ Definition cinit (n : Z) (locked : bool) (tries : nat) (kill : option nat)
      c_wdone := 0; c_committed := []; c_unread := []; c_delivered := []; c_uncov := 0; c_overlap := 0;
      c_rd := {| r_pc := RSeg0; r_done := false; r_seen := 0 |};
      c_wr := fun t => {| w_pc := WSeg0; w_script := nth (Nat.pred t) scripts []; w_tries := tries;
-                         w_pend := []; w_seen := 0; w_ev := 0 |} |}.
+                         w_pend := []; w_seen := 0; w_ev := 0 |};
+     c_repoch := 0; c_rver := fun _ => 0%nat; c_rstamp := 0; c_lrstamp := 0; c_wrseen := fun _ => 0%nat; c_rrace := 0 |}.
 
 (* ---- record updates ---- *)
 Definition set_rd (s : csys) (x : rthread) : csys :=
@@ -102,56 +110,82 @@ Definition set_rd (s : csys) (x : rthread) : csys :=
      c_w := c_w s; c_wstamp := c_wstamp s; c_r := c_r s; c_lock := c_lock s; c_lstamp := c_lstamp s;
      c_crem := c_crem s; c_hN := c_hN s; c_hC := c_hC s; c_body := c_body s; c_ver := c_ver s; c_gver := c_gver s;
      c_wdone := c_wdone s; c_committed := c_committed s; c_unread := c_unread s; c_delivered := c_delivered s;
-     c_uncov := c_uncov s; c_overlap := c_overlap s; c_rd := x; c_wr := c_wr s |}.
+     c_uncov := c_uncov s; c_overlap := c_overlap s; c_rd := x; c_wr := c_wr s;
+     c_repoch := c_repoch s; c_rver := c_rver s; c_rstamp := c_rstamp s; c_lrstamp := c_lrstamp s;
+     c_wrseen := c_wrseen s; c_rrace := c_rrace s |}.
 Definition set_wr (s : csys) (t : nat) (x : wthread) : csys :=
   {| c_n := c_n s; c_locked := c_locked s; c_nw := c_nw s; c_tries := c_tries s; c_kill := c_kill s;
      c_w := c_w s; c_wstamp := c_wstamp s; c_r := c_r s; c_lock := c_lock s; c_lstamp := c_lstamp s;
      c_crem := c_crem s; c_hN := c_hN s; c_hC := c_hC s; c_body := c_body s; c_ver := c_ver s; c_gver := c_gver s;
      c_wdone := c_wdone s; c_committed := c_committed s; c_unread := c_unread s; c_delivered := c_delivered s;
-     c_uncov := c_uncov s; c_overlap := c_overlap s; c_rd := c_rd s; c_wr := upd (c_wr s) t x |}.
+     c_uncov := c_uncov s; c_overlap := c_overlap s; c_rd := c_rd s; c_wr := upd (c_wr s) t x;
+     c_repoch := c_repoch s; c_rver := c_rver s; c_rstamp := c_rstamp s; c_lrstamp := c_lrstamp s;
+     c_wrseen := c_wrseen s; c_rrace := c_rrace s |}.
 Definition set_wcur (s : csys) (v : Z) (st : nat) : csys :=
   {| c_n := c_n s; c_locked := c_locked s; c_nw := c_nw s; c_tries := c_tries s; c_kill := c_kill s;
      c_w := v; c_wstamp := st; c_r := c_r s; c_lock := c_lock s; c_lstamp := c_lstamp s;
      c_crem := c_crem s; c_hN := c_hN s; c_hC := c_hC s; c_body := c_body s; c_ver := c_ver s; c_gver := c_gver s;
      c_wdone := c_wdone s; c_committed := c_committed s; c_unread := c_unread s; c_delivered := c_delivered s;
-     c_uncov := c_uncov s; c_overlap := c_overlap s; c_rd := c_rd s; c_wr := c_wr s |}.
+     c_uncov := c_uncov s; c_overlap := c_overlap s; c_rd := c_rd s; c_wr := c_wr s;
+     c_repoch := c_repoch s; c_rver := c_rver s; c_rstamp := c_rstamp s; c_lrstamp := c_lrstamp s;
+     c_wrseen := c_wrseen s; c_rrace := c_rrace s |}.
 Definition set_rcur (s : csys) (v : Z) : csys :=
   {| c_n := c_n s; c_locked := c_locked s; c_nw := c_nw s; c_tries := c_tries s; c_kill := c_kill s;
      c_w := c_w s; c_wstamp := c_wstamp s; c_r := v; c_lock := c_lock s; c_lstamp := c_lstamp s;
      c_crem := c_crem s; c_hN := c_hN s; c_hC := c_hC s; c_body := c_body s; c_ver := c_ver s; c_gver := c_gver s;
      c_wdone := c_wdone s; c_committed := c_committed s; c_unread := c_unread s; c_delivered := c_delivered s;
-     c_uncov := c_uncov s; c_overlap := c_overlap s; c_rd := c_rd s; c_wr := c_wr s |}.
+     c_uncov := c_uncov s; c_overlap := c_overlap s; c_rd := c_rd s; c_wr := c_wr s;
+     c_repoch := c_repoch s; c_rver := c_rver s; c_rstamp := c_rstamp s; c_lrstamp := c_lrstamp s;
+     c_wrseen := c_wrseen s; c_rrace := c_rrace s |}.
 Definition set_lock (s : csys) (v : Z) (st : nat) : csys :=
   {| c_n := c_n s; c_locked := c_locked s; c_nw := c_nw s; c_tries := c_tries s; c_kill := c_kill s;
      c_w := c_w s; c_wstamp := c_wstamp s; c_r := c_r s; c_lock := v; c_lstamp := st;
      c_crem := c_crem s; c_hN := c_hN s; c_hC := c_hC s; c_body := c_body s; c_ver := c_ver s; c_gver := c_gver s;
      c_wdone := c_wdone s; c_committed := c_committed s; c_unread := c_unread s; c_delivered := c_delivered s;
-     c_uncov := c_uncov s; c_overlap := c_overlap s; c_rd := c_rd s; c_wr := c_wr s |}.
+     c_uncov := c_uncov s; c_overlap := c_overlap s; c_rd := c_rd s; c_wr := c_wr s;
+     c_repoch := c_repoch s; c_rver := c_rver s; c_rstamp := c_rstamp s; c_lrstamp := c_lrstamp s;
+     c_wrseen := c_wrseen s; c_rrace := c_rrace s |}.
 Definition set_crem (s : csys) (c : Z) : csys :=
   {| c_n := c_n s; c_locked := c_locked s; c_nw := c_nw s; c_tries := c_tries s; c_kill := c_kill s;
      c_w := c_w s; c_wstamp := c_wstamp s; c_r := c_r s; c_lock := c_lock s; c_lstamp := c_lstamp s;
      c_crem := c; c_hN := c_hN s; c_hC := c_hC s; c_body := c_body s; c_ver := c_ver s; c_gver := c_gver s;
      c_wdone := c_wdone s; c_committed := c_committed s; c_unread := c_unread s; c_delivered := c_delivered s;
-     c_uncov := c_uncov s; c_overlap := c_overlap s; c_rd := c_rd s; c_wr := c_wr s |}.
+     c_uncov := c_uncov s; c_overlap := c_overlap s; c_rd := c_rd s; c_wr := c_wr s;
+     c_repoch := c_repoch s; c_rver := c_rver s; c_rstamp := c_rstamp s; c_lrstamp := c_lrstamp s;
+     c_wrseen := c_wrseen s; c_rrace := c_rrace s |}.
 Definition set_wdone (s : csys) (d : nat) : csys :=
   {| c_n := c_n s; c_locked := c_locked s; c_nw := c_nw s; c_tries := c_tries s; c_kill := c_kill s;
      c_w := c_w s; c_wstamp := c_wstamp s; c_r := c_r s; c_lock := c_lock s; c_lstamp := c_lstamp s;
      c_crem := c_crem s; c_hN := c_hN s; c_hC := c_hC s; c_body := c_body s; c_ver := c_ver s; c_gver := c_gver s;
      c_wdone := d; c_committed := c_committed s; c_unread := c_unread s; c_delivered := c_delivered s;
-     c_uncov := c_uncov s; c_overlap := c_overlap s; c_rd := c_rd s; c_wr := c_wr s |}.
+     c_uncov := c_uncov s; c_overlap := c_overlap s; c_rd := c_rd s; c_wr := c_wr s;
+     c_repoch := c_repoch s; c_rver := c_rver s; c_rstamp := c_rstamp s; c_lrstamp := c_lrstamp s;
+     c_wrseen := c_wrseen s; c_rrace := c_rrace s |}.
 (* a plain write segment of the writer: header words / payload / versions, ghost overlap count *)
 Definition set_data (s : csys) (hN hC body : Z -> Z) (ver : Z -> nat) (gver : nat) (ovl : nat) : csys :=
   {| c_n := c_n s; c_locked := c_locked s; c_nw := c_nw s; c_tries := c_tries s; c_kill := c_kill s;
      c_w := c_w s; c_wstamp := c_wstamp s; c_r := c_r s; c_lock := c_lock s; c_lstamp := c_lstamp s;
      c_crem := c_crem s; c_hN := hN; c_hC := hC; c_body := body; c_ver := ver; c_gver := gver;
      c_wdone := c_wdone s; c_committed := c_committed s; c_unread := c_unread s; c_delivered := c_delivered s;
-     c_uncov := c_uncov s; c_overlap := ovl; c_rd := c_rd s; c_wr := c_wr s |}.
+     c_uncov := c_uncov s; c_overlap := ovl; c_rd := c_rd s; c_wr := c_wr s;
+     c_repoch := c_repoch s; c_rver := c_rver s; c_rstamp := c_rstamp s; c_lrstamp := c_lrstamp s;
+     c_wrseen := c_wrseen s; c_rrace := c_rrace s |}.
 Definition set_ghost (s : csys) (com unr del : list (Z * Z * Z)) (uncov : nat) : csys :=
   {| c_n := c_n s; c_locked := c_locked s; c_nw := c_nw s; c_tries := c_tries s; c_kill := c_kill s;
      c_w := c_w s; c_wstamp := c_wstamp s; c_r := c_r s; c_lock := c_lock s; c_lstamp := c_lstamp s;
      c_crem := c_crem s; c_hN := c_hN s; c_hC := c_hC s; c_body := c_body s; c_ver := c_ver s; c_gver := c_gver s;
      c_wdone := c_wdone s; c_committed := com; c_unread := unr; c_delivered := del;
-     c_uncov := uncov; c_overlap := c_overlap s; c_rd := c_rd s; c_wr := c_wr s |}.
+     c_uncov := uncov; c_overlap := c_overlap s; c_rd := c_rd s; c_wr := c_wr s;
+     c_repoch := c_repoch s; c_rver := c_rver s; c_rstamp := c_rstamp s; c_lrstamp := c_lrstamp s;
+     c_wrseen := c_wrseen s; c_rrace := c_rrace s |}.
+
+Definition set_rc (s : csys) (ep : nat) (rver : Z -> nat) (rst lrst : nat) (wrs : nat -> nat) (race : nat) : csys :=
+  {| c_n := c_n s; c_locked := c_locked s; c_nw := c_nw s; c_tries := c_tries s; c_kill := c_kill s;
+     c_w := c_w s; c_wstamp := c_wstamp s; c_r := c_r s; c_lock := c_lock s; c_lstamp := c_lstamp s;
+     c_crem := c_crem s; c_hN := c_hN s; c_hC := c_hC s; c_body := c_body s; c_ver := c_ver s; c_gver := c_gver s;
+     c_wdone := c_wdone s; c_committed := c_committed s; c_unread := c_unread s; c_delivered := c_delivered s;
+     c_uncov := c_uncov s; c_overlap := c_overlap s; c_rd := c_rd s; c_wr := c_wr s;
+     c_repoch := ep; c_rver := rver; c_rstamp := rst; c_lrstamp := lrst; c_wrseen := wrs; c_rrace := race |}.
 
 Definition wset (x : wthread) (p : wpc) : wthread :=
   {| w_pc := p; w_script := w_script x; w_tries := w_tries x; w_pend := w_pend x; w_seen := w_seen x; w_ev := w_ev x |}.
@@ -201,10 +235,18 @@ Definition w_alloc1 (s : csys) (t : nat) (x : wthread) (notes : list (nat * Z)) 
 Definition is_atomic (o : opk) : bool :=
   match o with OLoad | OStore | OTas | OClear => true | _ => false end.
 
-(* the kill switch: writer 1 stops for good right after its k-th atomic operation *)
+(* the kill switch: writer 1 stops for good right after its k-th atomic operation; with several writer threads
+   (under the write lock) the writer PROCESS has died at that instant: every other writer thread stops right after
+   its own next atomic operation (wherever it is: spinning on the lock its dead sibling holds, inside
+   update_cached_remain, ...) *)
+Definition proc_dead (s : csys) : bool :=
+  match c_kill s with Some k => Nat.leb k (w_ev (c_wr s 1%nat)) | None => false end.
 Definition kill_check (s : csys) (t : nat) (r : csys * label) : csys * label :=
   match r with
   | (s', LEv e) =>
+    if negb (Nat.eqb t 1) && is_atomic (e_op e) && proc_dead s then
+      (set_wdone (set_wr s' t (wset_pend (c_wr s' t) WKilled [])) (S (c_wdone s')), LEv e)
+    else
     if Nat.eqb t 1 && is_atomic (e_op e) then
       let x := c_wr s' t in
       let ev := S (w_ev (c_wr s t)) in
@@ -365,7 +407,7 @@ Definition wstep (P : params) (s : csys) (t : nat) : option (csys * label) :=
   | WDone => None
   end.
 
-Definition cstep (P : params) (s : csys) (t ch : nat) : option (csys * label) :=
+Definition cstep0 (P : params) (s : csys) (t ch : nat) : option (csys * label) :=
   if Nat.eqb t 0 then rstep P s
   else if Nat.leb t (c_nw s) && (c_locked s || Nat.eqb t 1) then
     match wstep P s t with
@@ -374,8 +416,69 @@ Definition cstep (P : params) (s : csys) (t ch : nat) : option (csys * label) :=
     end
   else None.
 
+(* ---- read-before-overwrite coverage (ghost layer on top of the step above) ----
+   The reader's plain reads of a message (header + payload) must be complete before the writer stores
+   into those lines again.  Each plain read segment of the reader is a new epoch, recorded on the lines
+   it reads.  A store of read_cursor with order >= release publishes the epochs so far on that cell
+   (a relaxed store publishes nothing); the store of read_cursor := 0 in r_fetch is executed only if the
+   header just read is the wrap marker (control dependency), so the one read that precedes it is ordered
+   before it whatever its order: it is counted as published (observation, see TRUSTED_BASE: C11 itself would
+   want release there as well).  A writer learns the published epoch when it loads read_cursor (the code's
+   load is relaxed: accepted as the acquiring side because the writer's later stores are control-dependent
+   on the value loaded; C11 formally wants acquire - same TRUSTED_BASE note) and through the write lock
+   (acquire / release, as for the write views).  A store of the writer into a line (its version changes)
+   is read-covered iff the epoch of the latest read of that line is known to this writer; otherwise
+   c_rrace counts it. *)
+Definition rc_read (s : csys) (a b : Z) : csys :=
+  set_rc s (S (c_repoch s)) (frange (c_rver s) a b (S (c_repoch s))) (c_rstamp s) (c_lrstamp s) (c_wrseen s) (c_rrace s).
+Definition rc_publish (s : csys) (st : nat) : csys :=
+  set_rc s (c_repoch s) (c_rver s) st (c_lrstamp s) (c_wrseen s) (c_rrace s).
+
+(* reader step s -> s' of the base layer: which lines it read / what it published *)
+Definition ghost_r (P : params) (s s' : csys) : csys :=
+  match r_pc (c_rd s) with
+  | RSegFetch w_obs =>
+    if w_obs =? c_r s then s'
+    else if negb (c_hN s (c_r s) =? 0) then rc_read s' (c_r s) (pay_end (c_r s) (c_hN s (c_r s)))
+    else rc_read s' (c_r s) (c_r s + 1)
+  | RSegFetch2 =>
+    if negb (c_hN s 0 =? 0) then rc_read s' 0 (pay_end 0 (c_hN s 0)) else rc_read s' 0 1
+  | RStoreWrap => rc_publish s' (c_repoch s)
+  | RStoreMove _ => rc_publish s' (rel_stamp (mo_r_store_move P) (c_repoch s))
+  | _ => s'
+  end.
+
+(* lines of [0, n) the step stored into (version changed) whose latest read is not known to the storer *)
+Definition unread_overwritten (s s' : csys) (rseen : nat) : bool :=
+  existsb (fun i => let l := Z.of_nat i in
+                    negb (Nat.eqb (c_ver s' l) (c_ver s l)) && negb (Nat.leb (c_rver s l) rseen))
+          (seq 0 (Z.to_nat (c_n s))).
+
+Definition ghost_w (P : params) (s : csys) (t : nat) (s' : csys) : csys :=
+  let rs := c_wrseen s t in
+  let race := if unread_overwritten s s' rs then S (c_rrace s) else c_rrace s in
+  match w_pc (c_wr s t) with
+  | WLoadR =>
+    set_rc s' (c_repoch s) (c_rver s) (c_rstamp s) (c_lrstamp s) (upd (c_wrseen s) t (Nat.max rs (c_rstamp s))) race
+  | WTas =>
+    let mo := mo_lock_tas P in
+    set_rc s' (c_repoch s) (c_rver s) (c_rstamp s) (rmw_stamp mo rs (c_lrstamp s))
+           (upd (c_wrseen s) t (acq_join mo rs (c_lrstamp s))) race
+  | WClear _ _ =>
+    set_rc s' (c_repoch s) (c_rver s) (c_rstamp s) (rel_stamp (mo_lock_clear P) rs) (c_wrseen s) race
+  | _ => set_rc s' (c_repoch s) (c_rver s) (c_rstamp s) (c_lrstamp s) (c_wrseen s) race
+  end.
+
+Definition cstep (P : params) (s : csys) (t ch : nat) : option (csys * label) :=
+  match cstep0 P s t ch with
+  | Some (s', l) => Some (if Nat.eqb t 0 then ghost_r P s s' else ghost_w P s t s', l)
+  | None => None
+  end.
+
 (* orders that make the hand-over of plain data sound: both stores of write_cursor release, the
-   reader's load of it acquire; with several writers the lock must be acquire / release *)
+   reader's load of it acquire; with several writers the lock must be acquire / release; and, for the
+   other direction (the reader's reads complete before the writer reuses the lines), the reader's store of
+   read_cursor in r_move release *)
 Definition mo_sufficient (P : params) : bool :=
   is_rel (mo_w_store_wrap P) && is_rel (mo_w_store_commit P) && is_acq (mo_r_load_w P) &&
-  is_acq (mo_lock_tas P) && is_rel (mo_lock_clear P).
+  is_acq (mo_lock_tas P) && is_rel (mo_lock_clear P) && is_rel (mo_r_store_move P).
